@@ -5,3 +5,6 @@ package main
 func triageDiff(f *Failure) string {
 	return ""
 }
+
+func triageC09(f *Failure) string { return "" }
+func triageC11(f *Failure) string { return "" }
